@@ -1,7 +1,7 @@
 /-
 C11 — the property as an executable judgement over what the REAL code was observed to do (core Lean only).
 
-Four kinds of observation (see harness/cmd/c11):
+Five kinds of observation (see harness/cmd/c11):
 
 * `alias`  — pointer-identity graph of two instances of one pool (gun + acquired ammo each), the allocation units
              reachable from both ("shared"), and the shared units whose content changed while ONE goroutine ran one real
@@ -10,6 +10,10 @@ Four kinds of observation (see harness/cmd/c11):
              `sync` — and the object that synchronises it must have only guarded access sites in the regenerated
              lock-facts table. A write to shared memory classed `ro` is a schedule-independent witness of a data race
              between instances and of a cross-instance effect.
+* `handover` — ONE goroutine fires real shots of a gun bound to a recording aggregator (every failure path of a
+             scenario step); per sample object the word of what the gun did with it (T take, W write, G give = Report),
+             judged by the ownership discipline `progOkB` of `Model/C11Own.lean`: a sample is given once and not
+             written afterwards (schedule-independent witness of a gun↔aggregator race and of a double release).
 * `guns`   — the real engine with a probing gun factory: one gun object per factory call, never two `Shoot` calls in
              progress on one gun object, one calling goroutine per gun.
 * `race` / `hammer` — n concurrent instances (whole pool / one shared object) under the Go race detector: no race
